@@ -678,6 +678,22 @@ class Engine:
     # ------------------------------------------------------------------ loops
     def x_While(self, n):
         k = self.loop_ids.get(id(n), -1)
+        if k == -1 and not self.unroll:
+            for _ in range(3):
+                if not self.branch(self.truth(self.eval(n.test))):
+                    self.exec_block(n.orelse)
+                    return
+                try:
+                    self.exec_block(n.body)
+                except _Continue:
+                    pass
+                except _Break:
+                    return
+            g = self.truth(self.eval(n.test))
+            self.oblige('unwind', f'while@{ast.unparse(n.test)[:30]}', (not g) if isinstance(g, bool) else z3.Not(zbool(g)))
+            self.assume(z3.BoolVal(not g) if isinstance(g, bool) else z3.Not(zbool(g)))
+            self.exec_block(n.orelse)
+            return
         if self.unroll or k not in self.c.loops:
             if not self.unroll:
                 raise Unsupported(f'{self.c.qual}: loop {k} (line {n.lineno}) has no invariant')
@@ -1752,6 +1768,10 @@ class Engine:
             return recv.get(args[0], args[1] if len(args) > 1 else None)
         if hasattr(recv, 'method'):
             return recv.method(self, name, args, kwargs, e)
+        if isinstance(recv, Opaque) and recv.what.startswith('class:'):
+            cc = self.find_contract(recv.what[6:], name)
+            if cc is not None:
+                return self.call_contract_or_inline(cc, recv, args, kwargs)
         if isinstance(recv, (PyList, ArrList)) and not hasattr(list, name):
             raise PyRaise('AttributeError')      # e.g. `xs.push(...)`: Python lists have no such method
         raise Unsupported(f'{self.c.qual}: method .{name} of {recv!r}')
@@ -2002,7 +2022,7 @@ class Engine:
             if isinstance(args[0], BSeq):
                 return BSeq(args[0].items, 'bytearray')
             raise Unsupported('bytearray(...)')
-        if name == 'memoryview' and isinstance(args[0], Slice):
+        if name == 'memoryview' and (isinstance(args[0], Slice) or type(args[0]).__name__ == 'BitsBytes'):
             return args[0]
         if name == 'divmod':
             a, b = zint(args[0]), zint(args[1])
